@@ -9,6 +9,7 @@ INVARIANTS
   C06_Valid
   C06_Order
   C06_CorruptionFails
+  C06_NoDoubleCount
   C06_Oracle
   C06_FastForms
   C06_Emit
